@@ -5,6 +5,7 @@ splits names made of capitalised words and initialisms into exactly those words.
 Property theorems only (helper lemmas live in Lemmas/CaseConv.lean).
 -/
 import DialsModel.Lemmas.CaseConv
+import DialsModel.Lemmas.GoIdent
 
 namespace Dials.C19
 open Dials Dials.CaseConv
@@ -113,5 +114,41 @@ theorem C19_empty_rejected (sc : Scheme) : sc.decode (sc.encode []) = none := by
 example : (∀ w ∈ ["http2".toList, "x".toList, "port".toList], isWord w = true) ∧
     Scheme.upperSnake.decode (Scheme.upperSnake.encode ["http2".toList, "x".toList, "port".toList])
       = some ["http2".toList, "x".toList, "port".toList] := by decide
+
+/-- Go-identifier decoding: an identifier rendered from any list of capitalised words
+`[A-Z][a-z]+` and initialisms that satisfies the decidable side condition `GoodIdent`
+(every maximal run of adjacent initialisms is tokenised as intended by the scan-order matcher;
+no capitalised word shorter than three characters directly after an initialism at the very end)
+decodes to exactly those words.  Any number of tokens, any order.  Parametric in the initialism
+list; `decodeGoCamel` instantiates it with the list regenerated from the source (F11). -/
+theorem C19_go_ident (ts : List Tok) (h : GoodIdent initialisms ts = true) :
+    decodeGoCamel (render ts) = some (expected ts) :=
+  decodeGoCamelWith_good initialisms ts h
+
+/-- Every initialism of the current source list except HTTPS and UID (which are shadowed by the
+earlier entries HTTP and UI: finding D11) and UTF8 (digit: D16) forms a good identifier between
+two capitalised words; so e.g. `UserIDName`, `JSONFile`, `HTTPPort` keep every word boundary.
+The quantifier is the finite table `Facts.initialisms`; `decide` enumerates all of it. -/
+theorem C19_single_initialism :
+    ∀ i ∈ initialisms, i ≠ "HTTPS".toList → i ≠ "UID".toList → i ≠ "UTF8".toList →
+      GoodIdent initialisms [.word "User".toList, .init i, .word "Name".toList] = true ∧
+      GoodIdent initialisms [.init i, .word "File".toList] = true ∧
+      GoodIdent initialisms [.word "User".toList, .init i] = true := by
+  decide
+
+/-- The full-strength statement ("every identifier assembled from capitalised words and the
+initialism list decodes to its tokens") is false of the current code: finding D11. -/
+theorem C19_shadowed_counterexample :
+    decodeGoCamel "HTTPSPort".toList = some ["http".toList, "s".toList, "port".toList] ∧
+    decodeGoCamel "UserUID".toList = some ["user".toList, "ui".toList, "d".toList] := by
+  decide
+
+/-- finding D14: a two-letter word after an initialism at the very end is glued to it -/
+theorem C19_short_tail_counterexample :
+    decodeGoCamel "HTMLRo".toList = some ["htmlro".toList] := by decide
+
+/-- non-vacuity of `C19_go_ident`: a five-token identifier with two adjacent initialisms -/
+example : GoodIdent initialisms [.word "My".toList, .init "JSON".toList, .init "API".toList,
+    .word "Ab".toList, .word "Cd".toList] = true := by decide
 
 end Dials.C19
